@@ -255,7 +255,7 @@ class C18(Prop):
 
     def gen_event(self, rng):
         fname = rng.choice([None, None, 2])
-        return ev(rng.choice([None, 0, 1, 2, S.EMPTY_ID]), rng.choice([None, 'inprogress', 'success', 'fail']),
+        return ev(rng.choice([None, 0, 1, 2, S.EMPTY_ID]), rng.choice([None, 'inprogress', 'success', 'fail'] + S.STATUSES),        # every member of STATES, incl. unknown
                   rng.choice([None, None, [], [0], [0, 1]]), rng.random() < 0.85, fname, None if fname is None else rng.choice([[], [65, 66]]),
                   rng.random() < 0.2, rng.choice([None, None, 1]), self.gen_route(rng), rng.choice([None, 3]))
 
